@@ -148,7 +148,7 @@ def initProvider (s : State) (creator ip keybase : String) (totalSpace : Int) (i
   req (AMap.contains s.providers creator = false)
   req (0 ≤ s.params.collateralPrice)                  -- sdk.NewInt64Coin panics on a negative amount
   let coins ← Bank.newCoins "ujkl" s.params.collateralPrice
-  let b1 ← Bank.send s.bank creator s.collateralAcc coins
+  let b1 ← Bank.send s.bank (acctOf s creator) s.collateralAcc coins
   some { s with bank := b1,
                 collateral := AMap.set s.collateral creator s.params.collateralPrice,
                 providers := AMap.set s.providers creator
@@ -162,7 +162,7 @@ def shutdownProvider (s : State) (creator : String) : Option State := do
   | some amt =>
     req (0 ≤ amt)
     let coins ← Bank.newCoins "ujkl" amt
-    let b1 ← sendFromModule s s.collateralAcc creator coins
+    let b1 ← sendFromModule s s.collateralAcc (acctOf s creator) coins
     some { s with bank := b1, collateral := AMap.erase s.collateral creator,
                   providers := AMap.erase s.providers creator }
   | none => some { s with providers := AMap.erase s.providers creator }
